@@ -141,17 +141,18 @@ def groupSteps {α} (isSeg : α → Bool) : List α → List (List α ⊕ α)
       | .inl g :: rest => .inl (x :: g) :: rest
       | rest => .inl [x] :: rest
 
+/-- the text of one part of `Path(…)`: `_format_t(part)` (default root `T`) for a run, `repr(part)` for a segment -/
+def groupToks {L} : List (Step L × List (Tok L)) ⊕ (Step L × List (Tok L)) → List (Tok L)
+  | .inl g => Tok.root "T" :: g.flatMap (fun x => x.2)
+  | .inr x => x.2
+
 /-- `_format_path(t_path)` on steps whose own tokens are already formatted: a lone T run is
     printed by `_format_t` (reading 6 of DESIGN.md), anything else as `Path(part, …)`;
     the T sub-expressions are printed with root `T` whatever the real root is -/
 def assemblePath {L} (xs : List (Step L × List (Tok L))) : List (Tok L) :=
   match groupSteps (fun x => x.1.isSeg) xs with
   | [.inl g] => Tok.root "T" :: g.flatMap (fun x => x.2)
-  | groups =>
-    [Tok.name "Path", Tok.par (joinSep .comma (groups.map (fun grp =>
-      match grp with
-      | .inl g => Tok.root "T" :: g.flatMap (fun x => x.2)
-      | .inr x => x.2)))]
+  | groups => [Tok.name "Path", Tok.par (joinSep .comma (groups.map groupToks))]
 
 /-- `_format_t(path, root)` on steps whose own tokens are already formatted:
     the first `'P'` op hands the whole path to `_format_path` -/
@@ -435,19 +436,24 @@ def pathInit {L} (parts : List (Part L)) : Option (String × List (Step L)) :=
   | .texpr r s :: others => others.foldlM pathStep (r, s)   -- isinstance(path_parts[0], TType): offset = 1
   | parts => parts.foldlM pathStep ("T", [])
 
+/-- one positional argument of `Path( … )`: a literal, or a T expression -/
+def parsePart {L} (p : List (Tok L)) : Option (Part L) :=
+  match p with
+  | [.lit v] => some (Part.plain v)
+  | .root r :: rest => (parseSteps rest).map (Part.texpr r)
+  | _ => none
+
+def objOfParts {L} (parts : Option (List (Part L))) : Option (Obj L) :=
+  match parts with
+  | some parts => (pathInit parts).map (fun rs => Obj.pobj rs.1 rs.2)
+  | none => none
+
 /-- the whole text — `eval(repr)`: a T expression, or `Path( … )` -/
 def parseObj {L} : List (Tok L) → Option (Obj L)
   | .root r :: rest => (parseSteps rest).map (Obj.tobj r)
   | [.name "Path", .par ch] =>
     if ch.isEmpty then some (.pobj "T" [])
-    else
-      match allSome ((dropTrailingEmpty (splitOn Tok.isComma ch)).map (fun p =>
-          match p with
-          | [.lit v] => some (Part.plain v)
-          | .root r :: rest => (parseSteps rest).map (Part.texpr r)
-          | _ => none)) with
-      | some parts => (pathInit parts).map (fun rs => Obj.pobj rs.1 rs.2)
-      | none => none
+    else objOfParts (allSome ((dropTrailingEmpty (splitOn Tok.isComma ch)).map parsePart))
   | _ => none
 
 /-! ### pickling -/
